@@ -50,12 +50,14 @@ func c17Max(tier string) int {
 }
 
 // slot kinds: own (own-line: // or /* */ or directive), eol (end of line: // or /* */), mid (inside an expression: /* */ only)
-var c17SlotOrder = []string{"header", "build", "pkgdoc", "pkgtrail", "pkgtrail2", "free1", "d1doc", "d1open", "d1in", "d1own", "d1trail", "d1trail0", "d1trail2", "free2", "d2doc", "d2own", "d2eol", "d2mid", "d2trail", "d2trail2", "free3", "d3doc", "d3trail", "eof"}
+var c17SlotOrder = []string{"header", "build", "pkgdoc", "pkgtrail", "pkgtrail2", "imp1doc", "imp1trail", "imp2doc", "imp2trail", "free1", "d1doc", "d1open", "d1in", "d1own", "d1trail", "d1trail0", "d1trail2", "free2", "d2doc", "d2own", "d2eol", "d2mid", "d2trail", "d2trail2", "free3", "d3doc", "d3trail", "eof"}
 
 var c17SlotKind = map[string]string{"header": "own", "build": "build", "pkgdoc": "own", "pkgtrail": "eolpkg", "pkgtrail2": "eol2", "free1": "own", "d1doc": "own", "d1open": "eol", "d1in": "eol", "d1own": "own",
-	"d1trail": "eol", "d1trail0": "eol0", "d1trail2": "eol2", "d2trail2": "eol2", "free2": "own", "d2doc": "own", "d2own": "own", "d2eol": "eol", "d2mid": "mid", "d2trail": "eol", "free3": "own", "d3doc": "own", "d3trail": "eol", "eof": "own"}
+	"imp1doc": "own", "imp1trail": "eol", "imp2doc": "own", "imp2trail": "eol", "d1trail": "eol", "d1trail0": "eol0", "d1trail2": "eol2", "d2trail2": "eol2", "free2": "own", "d2doc": "own", "d2own": "own", "d2eol": "eol", "d2mid": "mid", "d2trail": "eol", "free3": "own", "d3doc": "own", "d3trail": "eol", "eof": "own"}
 
 func c17Render(slots map[string]string, sites string) string {
+	imps2 := strings.HasSuffix(sites, "/imps2") // the file has two import declarations, which the patch does not mention
+	sites = strings.TrimSuffix(sites, "/imps2")
 	imp := strings.HasSuffix(sites, "/imp") // the file has one import, which the patch removes or replaces; the site refers to it
 	sites = strings.TrimSuffix(sites, "/imp")
 	funcs := strings.HasSuffix(sites, "/funcs")
@@ -95,6 +97,9 @@ func c17Render(slots map[string]string, sites string) string {
 	b.WriteString("package p" + eol("pkgtrail") + "\n\n")
 	if imp {
 		b.WriteString("import \"old/p\"\n\n")
+	}
+	if imps2 {
+		b.WriteString(own("imp1doc", "") + "import \"fmt\"" + eol("imp1trail") + "\n\n" + own("imp2doc", "") + "import \"os\"" + eol("imp2trail") + "\n\n")
 	}
 	head := b.String()
 	b.Reset()
@@ -218,16 +223,28 @@ func c17Gen(tier string, emit func(any)) {
 	var rec func(start int, slots map[string]string)
 	emitFor := func(slots map[string]string) {
 		for _, id := range ids {
-			for _, sites := range []string{"d2", "d2+d3", "d4", "d2/funcs", "d4/funcs", "d2/sitefirst", "d2+d3/sitefirst", "d2/sitefirst/funcs", "d2/sitelast", "d2/sitelast/funcs", "d2/imp", "d2/funcs/imp", "d2/sitefirst/imp", "d2/sitelast/imp"} {
+			for _, sites := range []string{"d2", "d2+d3", "d4", "d2/funcs", "d4/funcs", "d2/sitefirst", "d2+d3/sitefirst", "d2/sitefirst/funcs", "d2/sitelast", "d2/sitelast/funcs", "d2/imp", "d2/funcs/imp", "d2/sitefirst/imp", "d2/sitelast/imp", "d2/imps2", "d2/sitefirst/imps2"} {
 				if strings.HasSuffix(sites, "/imp") != (id == "expr-import" || id == "expr-+import") {
 					continue
+				}
+				impSlot := false
+				for k := range slots {
+					if strings.HasPrefix(k, "imp") {
+						impSlot = true
+					}
+				}
+				if strings.HasSuffix(sites, "/imps2") && id != "expr" && id != "expr+import" && id != "funcdecl-replace" && id != "pkg-rename+funcdecl-replace" {
+					continue
+				}
+				if impSlot && !strings.HasSuffix(sites, "/imps2") {
+					continue // these slots exist on the files with two import declarations only
 				}
 				cp := map[string]string{}
 				for k, v := range slots {
 					cp[k] = v
 				}
 				emit(&C17Case{PatchID: id, Changes: patches[id], Slots: cp, Sites: sites, File: c17Render(cp, sites)})
-				if tier == "thorough" || len(cp) <= 1 || sites == "d2" || sites == "d2+d3" || sites == "d4/funcs" || sites == "d2/sitefirst" || sites == "d2/sitelast" || sites == "d2/imp" {
+				if tier == "thorough" || len(cp) <= 1 || sites == "d2" || sites == "d2+d3" || sites == "d4/funcs" || sites == "d2/sitefirst" || sites == "d2/sitelast" || sites == "d2/imp" || sites == "d2/imps2" {
 					// quick: two-comment placements go through the command line on four of the eight site configurations
 					emit(&C17Case{PatchID: id, Changes: patches[id], Slots: cp, Sites: sites, File: c17Render(cp, sites), Mode: "cli"})
 				}
@@ -328,6 +345,49 @@ func c17Analyse(src []byte) (header []string, decls []declComments, all []string
 	return header, decls, all, nil
 }
 
+// c17ImportComments: per import path, the comments attached to it: the documentation and the line comment of its
+// spec, and the documentation of the declaration that holds it (gofmt-style tools merge import declarations; a
+// comment that then documents the merged declaration is still attached to the import).
+func c17ImportComments(src []byte) map[string][]string {
+	fset := token.NewFileSet()
+	f, err := parser.ParseFile(fset, "a.go", src, parser.ParseComments|parser.SkipObjectResolution)
+	if err != nil {
+		return nil
+	}
+	out := map[string][]string{}
+	for _, d := range f.Decls {
+		gd, ok := d.(*ast.GenDecl)
+		if !ok || gd.Tok != token.IMPORT {
+			continue
+		}
+		// the comment that trails the declaration on its last line
+		var trail *ast.CommentGroup
+		for _, cg := range f.Comments {
+			if cg.Pos() >= gd.End() && fset.Position(cg.Pos()).Line == fset.Position(gd.End()).Line {
+				trail = cg
+			}
+		}
+		for _, sp := range gd.Specs {
+			is := sp.(*ast.ImportSpec)
+			var l []string
+			groups := []*ast.CommentGroup{gd.Doc, is.Doc, is.Comment}
+			if trail != is.Comment {
+				groups = append(groups, trail)
+			}
+			for _, cg := range groups {
+				if cg == nil {
+					continue
+				}
+				for _, c := range cg.List {
+					l = append(l, c.Text)
+				}
+			}
+			out[is.Path.Value] = l
+		}
+	}
+	return out
+}
+
 func c17Run(env *core.Env, ci any) core.Outcome {
 	c := ci.(*C17Case)
 	ptext := model.RenderAll(c.Changes)
@@ -397,8 +457,58 @@ func c17Run(env *core.Env, ci any) core.Outcome {
 		}
 		return bad("header-comments-changed", "comments up to the package clause changed:\n in  %q\n out %q", inH, outH)
 	}
+	// imports the patch does not mention keep the comments attached to them
+	mentioned := map[string]bool{}
+	for _, ch := range c.Changes {
+		for _, im := range ch.Imports {
+			mentioned[`"`+im.Path+`"`] = true
+		}
+	}
+	inI, outI := c17ImportComments([]byte(c.File)), c17ImportComments(out)
+	var paths []string
+	for p := range inI {
+		paths = append(paths, p)
+	}
+	sort.Strings(paths)
+	for _, p := range paths {
+		if _, still := outI[p]; !still || mentioned[p] {
+			continue
+		}
+		if !isSubsequence(inI[p], outI[p]) {
+			// which comment went missing, and is it the documentation of a later import declaration that a
+			// merge of the import declarations left behind as a free-standing comment?
+			missing := ""
+			for _, t := range inI[p] {
+				if !contains(outI[p], t) {
+					missing = t
+				}
+			}
+			if missing != "" && contains(outAll, missing) && c17LaterImportDeclComment([]byte(c.File), missing) && c17ImportDecls(out) < c17ImportDecls([]byte(c.File)) {
+				return bad("!later-import-decl-comment-detached-by-merge", "the file has several import declarations, which are merged into one when the file is rewritten (golang.org/x/tools/imports does so even with FormatOnly); the comment %q attached to a later import declaration is left behind as a free-standing comment:\n in  %q\n out %q", missing, inI[p], outI[p])
+			}
+			return bad("!import-comments-detached", "the import %s is not mentioned by the patch but the comments attached to it changed:\n in  %q\n out %q", p, inI[p], outI[p])
+		}
+	}
 	if len(inD) != len(outD) {
 		return bad("decl-count", "number of declarations changed: %d -> %d", len(inD), len(outD))
+	}
+	// comments of the input that belong to no declaration and not to the header
+	inFree := map[string]bool{}
+	for _, t := range inAll {
+		inFree[t] = true
+	}
+	for _, t := range inH {
+		delete(inFree, t)
+	}
+	for _, d := range inD {
+		for _, cm := range d.comments {
+			delete(inFree, cm[strings.Index(cm, ":")+1:])
+		}
+	}
+	for _, l := range inI {
+		for _, t := range l {
+			delete(inFree, t)
+		}
 	}
 	untouched := 0
 	for i := range inD {
@@ -408,8 +518,11 @@ func c17Run(env *core.Env, ci any) core.Outcome {
 		untouched++
 		// a comment of the input's header (a continuation of the package line) that now stands directly above this
 		// declaration, because the import declaration between them was removed, is still the header's comment
+		// the same holds for a free-standing comment (attached to no declaration in the input) above it, when the
+		// blank line that separated them is gone
 		outC := outD[i].comments
-		for len(outC) > 0 && strings.HasPrefix(outC[0], "doc:") && contains(inH, strings.TrimPrefix(outC[0], "doc:")) && !contains(inD[i].comments, outC[0]) && prefixOK {
+		for len(outC) > 0 && strings.HasPrefix(outC[0], "doc:") && !contains(inD[i].comments, outC[0]) &&
+			(contains(inH, strings.TrimPrefix(outC[0], "doc:")) && prefixOK || inFree[strings.TrimPrefix(outC[0], "doc:")]) {
 			outC = outC[1:]
 		}
 		if strings.Join(inD[i].comments, "\n") != strings.Join(outC, "\n") {
@@ -435,4 +548,62 @@ func c17Run(env *core.Env, ci any) core.Outcome {
 	}
 	o.Transitions = 1 + untouched
 	return o
+}
+
+// c17ImportDecls counts the import declarations of a file.
+func c17ImportDecls(src []byte) int {
+	f, err := parser.ParseFile(token.NewFileSet(), "a.go", src, parser.ImportsOnly)
+	if err != nil {
+		return -1
+	}
+	n := 0
+	for _, d := range f.Decls {
+		if gd, ok := d.(*ast.GenDecl); ok && gd.Tok == token.IMPORT {
+			n++
+		}
+	}
+	return n
+}
+
+// c17LaterImportDeclComment: text is a comment attached to (documenting, inside or trailing) an import declaration other than the first.
+func c17LaterImportDeclComment(src []byte, text string) bool {
+	fset := token.NewFileSet()
+	f, err := parser.ParseFile(fset, "a.go", src, parser.ImportsOnly|parser.ParseComments)
+	if err != nil {
+		return false
+	}
+	n := 0
+	for _, d := range f.Decls {
+		gd, ok := d.(*ast.GenDecl)
+		if !ok || gd.Tok != token.IMPORT {
+			continue
+		}
+		n++
+		if n == 1 {
+			continue
+		}
+		from := gd.Pos()
+		if gd.Doc != nil {
+			from = gd.Doc.Pos()
+		}
+		for _, cg := range f.Comments {
+			for _, c := range cg.List {
+				if c.Text == text && c.Pos() >= from && fset.Position(c.Pos()).Line <= fset.Position(gd.End()).Line {
+					return true
+				}
+			}
+		}
+	}
+	return false
+}
+
+// isSubsequence reports whether every element of a occurs in b, in the same order.
+func isSubsequence(a, b []string) bool {
+	i := 0
+	for _, x := range b {
+		if i < len(a) && a[i] == x {
+			i++
+		}
+	}
+	return i == len(a)
 }
